@@ -375,6 +375,7 @@ type kase struct {
 
 	readers  map[int]*thr
 	closers  map[int]*thr // second Close() callers on a shared snapshot
+	sparse   bool         // flush payloads have one or two keys
 	jobs     []*thr
 	nReaders int
 
@@ -895,12 +896,71 @@ func (k *kase) exec(op string) string {
 			t.held = append(t.held, heldReader{file: f, rd: rd})
 			res = "ok"
 		}
-	case "find", "load":
+	case "find", "load", "loadc":
 		t := k.readers[num(ws[1])]
 		key := uint32(num(ws[2]))
 		var toks []uint32
 		var err error
-		if ws[0] == "find" {
+		if ws[0] == "loadc" {
+			// the loader lets one reader-cache Cleanup tick (every unreferenced entry counts as expired)
+			// run before it uses the value it was handed (a slice of the table's mapping)
+			cache := kv.VerifC02Cache(k.store)
+			covering := map[int64]bool{}
+			for _, fm := range t.ver.GetAllFiles() {
+				if key >= fm.GetMinKey() && key <= fm.GetMaxKey() {
+					covering[fm.GetFileNumber().Int64()] = true
+				}
+			}
+			ticked := false
+			var gone []int64
+			err = t.snap.Load(key, func(v []byte) error {
+				cp := append([]byte(nil), v...)
+				if !ticked {
+					ticked = true
+					before := table.VerifC02CacheEntries(cache)
+					kv.VerifC02CacheCleanup(k.store)
+					after := map[string]bool{}
+					for _, e := range table.VerifC02CacheEntries(cache) {
+						after[e.FileName] = true
+					}
+					unmapped := false
+					for _, e := range before {
+						if !after[e.FileName] {
+							n, _ := tableNo(e.FileName)
+							if covering[n] {
+								// a covering table this Load has not opened yet may be closed (it is re-opened
+								// when the loop gets there); the one the value comes from must not be
+								if eqU32(decToks(cp), k.contents[n][key]) {
+									unmapped = true
+									k.failf("value-unmapped-under-loader", t.ver.ID(), "a Cleanup tick inside the loader of Load(%d) by reader %s closed (unmapped) table %d, which the Load is reading from", key, t.name, n)
+								}
+							} else {
+								gone = append(gone, n)
+							}
+						}
+					}
+					if !unmapped && string(cp) != string(v) {
+						k.failf("value-changed-under-loader", t.ver.ID(), "the value handed to the loader of Load(%d) changed after a Cleanup tick", key)
+					}
+				}
+				toks = append(toks, decToks(cp)...)
+				return nil
+			})
+			sort.Slice(gone, func(i, j int) bool { return gone[i] < gone[j] })
+			for _, g := range gone {
+				op += " " + strconv.FormatInt(g, 10)
+				for _, o := range k.readers {
+					if o.snap == nil || o.closing {
+						continue
+					}
+					for _, h := range o.held {
+						if h.file == g {
+							k.failf("cleanup-closed-held-reader", o.ver.ID(), "Cleanup closed the reader of table %d retained by reader %s", g, o.name)
+						}
+					}
+				}
+			}
+		} else if ws[0] == "find" {
 			var rds []table.Reader
 			rds, err = t.snap.FindReaders(key)
 			if err == nil {
@@ -1431,7 +1491,8 @@ const (
 	nDirectFF = 4  // FindReaders failing at an uncached table while another snapshot retains an earlier one
 	nDirectC2 = 4  // one shared snapshot closed twice, the second Close() overlapping the first
 	nDirectPG = 2  // rounds of two concurrent GetReader calls on a never-opened table
-	nDirected = nWitness + nDirectDO + nDirectCC + nDirectAL + nDirectRU + nDirectFF + nDirectC2 + nDirectPG
+	nDirectNR = 2  // level-1 tables with nested key ranges, the covering one lacking the inner keys
+	nDirected = nWitness + nDirectDO + nDirectCC + nDirectAL + nDirectRU + nDirectFF + nDirectC2 + nDirectPG + nDirectNR
 )
 
 func (k *kase) lastJob() string { return k.jobs[len(k.jobs)-1].name }
@@ -1706,6 +1767,55 @@ func (k *kase) directParGet(rng *rand.Rand, d int) {
 	k.drain(rng)
 }
 
+// directNested (CompactThreshold 1): table [2~2] is moved to level 1 (trivial move); tables [0~1]
+// and [3~4] are flushed and merged into the level-1 table [0~4], which covers [2~2] without holding
+// key 2. A held and fresh readers then look the inner key up many times (the order in which the
+// tables of a level are visited is Go map order).
+func (k *kase) directNested(rng *rand.Rand, d int) {
+	fl := func(keys ...int) {
+		var parts []string
+		for _, key := range keys {
+			parts = append(parts, fmt.Sprintf("%d:%d", key, k.nextTok))
+			k.nextTok++
+		}
+		k.exec("spawn flush " + strings.Join(parts, " "))
+		k.finish(k.lastJob())
+	}
+	fl(2)
+	k.exec("spawn compact") // single level-0 table, nothing overlapping above: trivial move
+	k.finish(k.lastJob())
+	k.exec("acquire 0")
+	k.nReaders = 1
+	if d == 0 {
+		fl(0, 1)
+		fl(3, 4)
+	} else {
+		fl(0)
+		fl(1, 4)
+	}
+	k.exec("spawn compact")
+	k.finish(k.lastJob())
+	k.exec("acquire 1") // held across the rest
+	k.nReaders = 2
+	for i := 0; i < 30 && k.broken == ""; i++ {
+		switch i % 3 {
+		case 0:
+			k.exec("load 1 2")
+		case 1:
+			k.exec("find 1 2")
+		case 2:
+			r := k.nReaders
+			k.nReaders++
+			k.exec(fmt.Sprintf("acquire %d", r))
+			k.exec(fmt.Sprintf("loadc %d 2", r))
+			k.exec(fmt.Sprintf("close %d", r))
+			k.finish(fmt.Sprintf("r%d", r))
+		}
+	}
+	k.exec("load 0 2")
+	k.drain(rng)
+}
+
 // directPar: several rounds of 2–3 commits (flushes, optionally a rollup-done commit) whose
 // Commit() calls are released together and run without the scheduler.
 func (k *kase) directPar(rng *rand.Rand, d int) {
@@ -1737,6 +1847,16 @@ func (k *kase) directPar(rng *rand.Rand, d int) {
 
 func (k *kase) newPayload(rng *rand.Rand) string {
 	var parts []string
+	if k.sparse { // one or two keys per flush: narrow, nested and disjoint key ranges arise
+		a := rng.Intn(numKeys)
+		parts = append(parts, fmt.Sprintf("%d:%d", a, k.nextTok))
+		k.nextTok++
+		if b := a + 1 + rng.Intn(numKeys); b < numKeys && rng.Intn(2) == 0 {
+			parts = append(parts, fmt.Sprintf("%d:%d", b, k.nextTok))
+			k.nextTok++
+		}
+		return strings.Join(parts, " ")
+	}
 	for key := 0; key < numKeys; key++ {
 		if rng.Intn(2) == 0 {
 			parts = append(parts, fmt.Sprintf("%d:%d", key, k.nextTok))
@@ -1872,7 +1992,11 @@ func (k *kase) random(rng *rand.Rand, steps int) {
 			case y < 3:
 				k.exec(fmt.Sprintf("find %d %d", r, rng.Intn(numKeys)))
 			case y < 5:
-				k.exec(fmt.Sprintf("load %d %d", r, rng.Intn(numKeys)))
+				if rng.Intn(2) == 0 {
+					k.exec(fmt.Sprintf("loadc %d %d", r, rng.Intn(numKeys)))
+				} else {
+					k.exec(fmt.Sprintf("load %d %d", r, rng.Intn(numKeys)))
+				}
 			case y < 7 && len(files) > 0:
 				nos := make([]int, len(files))
 				for i, fm := range files {
@@ -2004,6 +2128,9 @@ func (area) Run(c *core.Ctx) error {
 		k := &kase{c: c, s: s}
 		c.Begin(i)
 		threshold, rollupOn := 2, false
+		if i >= nDirected-nDirectNR && i < nDirected {
+			threshold = 1
+		}
 		if i >= nDirected {
 			threshold = 1 + rng.Intn(3)
 			rollupOn = rng.Intn(3) == 0
@@ -2056,13 +2183,19 @@ func (area) Run(c *core.Ctx) error {
 			k.directClose2(rng, i-nWitness-nDirectDO-nDirectCC-nDirectAL-nDirectRU-nDirectFF)
 			c.NonTrivial()
 			c.Branch("directed:shared-snapshot-closed-twice")
-		} else if i < nDirected {
+		} else if i < nDirected-nDirectNR {
 			k.racy = racy
 			k.directParGet(rng, i-nWitness-nDirectDO-nDirectCC-nDirectAL-nDirectRU-nDirectFF-nDirectC2)
 			c.NonTrivial()
 			c.Branch("directed:concurrent-GetReader")
+		} else if i < nDirected {
+			k.racy = racy
+			k.directNested(rng, i-(nDirected-nDirectNR))
+			c.NonTrivial()
+			c.Branch("directed:nested-level1-ranges")
 		} else {
 			k.racy = racy
+			k.sparse = rng.Intn(3) == 0
 			steps := 50 + rng.Intn(70)
 			if c.Tier == "thorough" {
 				steps = 60 + rng.Intn(160)
